@@ -311,14 +311,20 @@ template <typename Type>
 inline typename Enable_If<Is_Singleton<Type>::value
                           || Is_Interval<Type>::value, bool>::type
 Interval<Boundary, Info>::can_be_exactly_joined_to(const Type& x) const {
-  PPL_DIRTY_TEMP(Boundary, b);
+  // Disjoint intervals can be exactly joined if and only if they are
+  // adjacent: the facing boundaries have the same (finite) value and
+  // exactly one of them is open.
   if (gt(LOWER, lower(), info(), UPPER, f_upper(x), f_info(x))) {
-    b = lower();
-    return eq(LOWER, b, info(), UPPER, f_upper(x), f_info(x));
+    return !lower_is_boundary_infinity()
+      && !x.upper_is_boundary_infinity()
+      && !(lower_is_open() && x.upper_is_open())
+      && equal(lower(), f_upper(x));
   }
   else if (lt(UPPER, upper(), info(), LOWER, f_lower(x), f_info(x))) {
-    b = upper();
-    return eq(UPPER, b, info(), LOWER, f_lower(x), f_info(x));
+    return !upper_is_boundary_infinity()
+      && !x.lower_is_boundary_infinity()
+      && !(upper_is_open() && x.lower_is_open())
+      && equal(upper(), f_lower(x));
   }
   return true;
 }
